@@ -14,6 +14,17 @@ CLAIMED = {
          "Each message type's real Encode is shown byte-for-byte equal to the schema interpreter's rendering on the wide domain (incl. over-long text), the real Decode of reference bytes returns the value, and for fixed layouts the real Decode of arbitrary bytes equals the reference decoding; one program per (type,key,shape).", "DESIGN.md §6 C02"),
  "C03": ("model_checking", "symbolic execution of every BE/LE primitive instantiation and of every message Encode; integer regions compared with the declared byte order by z3",
          "All 700+ primitive instantiations (prefix x element types) and all integer regions of all messages are rendered in the declared byte order for every value, within the list-length bounds.", "DESIGN.md §6 C03"),
+
+ "C04": ("model_checking", "symbolic execution of the real frame Encode with symbolic prior buffer content and stale fields; z3 decides length-bytes == body byte count",
+         "For the four frames with a computed length, every registered body key (and an absent body), every body value in the wide domain, every stale length and every prior buffer content of the stated sizes, the wire length and the object's length equal the number of body bytes appended.", "DESIGN.md §6 C04"),
+ "C05": ("model_checking", "symbolic execution of the real frame Encode including the real checksum service call; z3 decides trailer == algorithm(this frame's bytes)",
+         "For the three checksummed frames the trailer and the object's checksum equal the reference algorithm over exactly the bytes appended by this Encode (prior bytes excluded, corrected length included) for every body, stale value and prior content within the bounds; CRC-32 is handled as a function of its argument bytes (algorithm itself: C14).", "DESIGN.md §6 C05"),
+ "C06": ("model_checking", "three symbolic executions of the real Encode (empty buffer, buffer with symbolic history, re-encode of the mutated object) compared by z3",
+         "One inductive step from an arbitrary prior buffer: prior bytes untouched, appended bytes independent of history and of the object's own encode history, for every type/key/shape and every wide value.", "DESIGN.md §6 C06"),
+ "C07": ("model_checking", "symbolic execution of Encode, symbolic tail, Decode; and of two encodes followed by two decodes",
+         "Decode consumes exactly the message bytes for every canonical value and every tail (symbolic length and content); two streamed messages are recovered in order.", "DESIGN.md §6 C07"),
+ "C11": ("model_checking", "symbolic execution of Decode on A[:k] with a symbolic cut point; every feasible path must be an error path",
+         "For every type/key/shape, every canonical value and every cut position the decoder returns an error; the success path is shown infeasible by z3.", "DESIGN.md §6 C11"),
 }
 
 NA_REASON = "check under construction in this session; not yet claimed"
